@@ -200,9 +200,13 @@ var replyBodies = []string{`{"tok":"a","pay":"b"}`, `{"tok":"a"}}`, `{"tok":"a"}
 type vetoPlugin struct{}
 
 func (vetoPlugin) Name() string { return "c04-veto" }
-func (vetoPlugin) PostReadCallBody(ctx erpc.ReadCtx) *erpc.Status {
+func (vetoPlugin) PostReadCallHeader(ctx erpc.ReadCtx) *erpc.Status { return vetoAt(ctx, "PostReadCallHeader") }
+func (vetoPlugin) PreReadCallBody(ctx erpc.ReadCtx) *erpc.Status    { return vetoAt(ctx, "PreReadCallBody") }
+func (vetoPlugin) PostReadCallBody(ctx erpc.ReadCtx) *erpc.Status   { return vetoAt(ctx, "PostReadCallBody") }
+
+func vetoAt(ctx erpc.ReadCtx, stage string) *erpc.Status {
 	v := string(ctx.PeekMeta("Veto"))
-	if v == "" {
+	if v == "" || string(ctx.PeekMeta("Vetoat")) != stage {
 		return nil
 	}
 	cmd, ok := parseCommand("veto;" + v + ";x")
@@ -458,7 +462,13 @@ func main() {
 					expCodeMsgOnly = true
 				case "veto":
 					class = textClasses[r.Intn(4)]
-					vc := command{Code: codes[r.Intn(len(codes))], Msg: genText(class, r), Cause: genText("ascii", r)}
+					vc := command{Code: append([]int32{405, 405}, codes...)[r.Intn(len(codes)+2)], Msg: genText(class, r), Cause: genText("ascii", r)}
+					stage := []string{"PostReadCallHeader", "PreReadCallBody", "PostReadCallBody"}[r.Intn(3)]
+					if t.p.Struct || t.p.HTTP && stage == "PostReadCallHeader" {
+						stage = "PostReadCallBody"
+					}
+					class = class + "@" + stage
+					settings = append(settings, erpc.WithSetMeta("Vetoat", stage))
 					settings = append(settings, erpc.WithSetMeta("Veto", fmt.Sprintf("%d;%s;%s", vc.Code, hex.EncodeToString([]byte(vc.Msg)), hex.EncodeToString([]byte(vc.Cause)))))
 					tr := protos.StatusTriple(erpc.NewStatus(vc.Code, vc.Msg, causeArg(vc.Cause)))
 					exp = &tr
